@@ -41,7 +41,7 @@ META = dict(
 MODULE = "OPM.Properties.C11"
 REQUIRED = ["OPM.C11.exclusive_tick", "OPM.C11.callbacks_paired", "OPM.C11.finalized_iff_released",
             "OPM.C11.live_instances_exclusive", "OPM.C11.stopping_quiescent", "OPM.C11.callbacks_have_instances",
-            "OPM.C11.asis_two_instances_execute_in_one_tick"]
+            "OPM.C11.asis_two_instances_execute_in_one_tick", "OPM.C11.paused_request_not_executed"]
 
 
 def engine_oracle(case, res):
@@ -54,7 +54,7 @@ def run(ctx: Check) -> int:
     ctx.prove(MODULE, REQUIRED)
     ctx.rule = ("Op streams for the command manager: UOD configuration (4 commands, durations 0-6 iterations, optional "
                 "failing iteration, 0-3 overlap lists incl. duplicated pairs) + after Start a random sequence of UOD "
-                "requests, ticks, cancel/force by request id (known, unknown, ended), Simulate, Stop/Restart/Start; "
+                "requests, ticks, cancel/force by request id (known, unknown, ended), Simulate, pause flag on/off, Stop/Restart/Start; "
                 "all sequences of length <= 3/4 over a 9-op alphabet; a malformed stream (requests that are invalid in "
                 "the state they arrive in). Non-trivial = a tick in which one instance is finalized while another "
                 "executes, or a run ends. Engine level: generated methods (UOD commands from the main sequence and "
@@ -67,6 +67,8 @@ def run(ctx: Check) -> int:
     ctx.extra["fix"] = FIX
     ctx.assumptions = ["UOD command requests come from the interpreter (method or injected code), one node per request",
                        "command arguments parse", "at most one of Start/Stop/Restart in flight",
+                       "the paused flag of the run state is an input of the model (Pause/Unpause: model M1); an exception "
+                       "in the command phase sets it, Start/Stop/Restart clear it",
                        "the callbacks of the test UOD do nothing but log, complete or raise"]
     return ctx.finish()
 
